@@ -428,6 +428,14 @@ Section Codec.
                  end
              end
          end.
+
+  (* Store.Add of a plain file: descriptorFromFile; Store.Push of a named descriptor without
+     unpack (or with SkipUnpack): pushFile = os.Create (0666 minus umask) + verified copy *)
+  Definition file_descriptor (nm : path) (content : str) : descriptor :=
+    mkDesc (H content) (N.of_nat (length content)) nm false None.
+  Definition push_file (umask : N) (d : descriptor) (blob : str) : res node :=
+    if negb (digest_eqb (H blob) (d_digest d) && (N.of_nat (length blob) =? d_size d)) then Err XDigest
+    else Ok (NFile blob (create_mode file_create_bits umask 438)).
 End Codec.
 
 (* ---------- the file-store machine around names and digests (restoreDuplicates) ---------- *)
